@@ -371,8 +371,13 @@ func pmod(a, n int32) int32 {
 	return a
 }
 
+// sig marks signatures of cases whose extent has negative coordinates.  When the case steers around the known
+// negative-odd finding (AvoidNegOdd) a failure is not that finding's shape and gets its own suffix.
 func (m *machine) sig(s string) string {
-	if m.neg {
+	switch {
+	case m.neg && m.c.AvoidNegOdd:
+		return s + "/negative-coords-even-only"
+	case m.neg:
 		return s + "/negative-coords"
 	}
 	return s
